@@ -240,6 +240,7 @@ pub struct Engine {
     conn: Connection,
     state: Arc<Mutex<DrawState>>,
     pub statements: u64,
+    ops: Arc<std::sync::atomic::AtomicU64>,
 }
 
 struct VarAgg {
@@ -300,6 +301,15 @@ fn hex128(s: &[u8]) -> String {
     format!("{:016x}{:016x}", a, b)
 }
 
+/// Virtual-machine operations one statement may use (ordinary scenario statements use well under
+/// a million).
+pub const VM_OPS_BUDGET: u64 = 400_000_000;
+
+/// `VERIF_VM_OPS_BUDGET` overrides the budget (self-test of the budget itself).
+fn vm_ops_budget() -> u64 {
+    std::env::var("VERIF_VM_OPS_BUDGET").ok().and_then(|v| v.parse().ok()).unwrap_or(VM_OPS_BUDGET)
+}
+
 impl Engine {
     pub fn new(tables: &[&TableSpec]) -> Result<Engine, String> {
         let conn = Connection::open_in_memory().map_err(|e| e.to_string())?;
@@ -307,6 +317,17 @@ impl Engine {
         unsafe {
             rusqlite::ffi::sqlite3_db_config(conn.handle(), 1013, 0i32, std::ptr::null_mut::<i32>());
             rusqlite::ffi::sqlite3_db_config(conn.handle(), 1014, 0i32, std::ptr::null_mut::<i32>());
+        }
+        // a statement may not run away (a changed compiler can emit a query whose joins explode):
+        // the budget is counted in virtual-machine operations, not in time, so that hitting it is
+        // as repeatable as everything else
+        let ops = Arc::new(std::sync::atomic::AtomicU64::new(0));
+        {
+            let ops = ops.clone();
+            conn.progress_handler(
+                100_000,
+                Some(move || ops.fetch_add(1, std::sync::atomic::Ordering::Relaxed) + 1 > vm_ops_budget() / 100_000),
+            );
         }
         let state = Arc::new(Mutex::new(DrawState::default()));
         for (name, role) in [("SIM_U1", Role::U1), ("SIM_U2", Role::U2), ("SIM_RANDOM", Role::Other)] {
@@ -410,7 +431,7 @@ impl Engine {
             )
             .map_err(|e| e.to_string())?;
         }
-        let mut eng = Engine { conn, state, statements: 0 };
+        let mut eng = Engine { conn, state, statements: 0, ops };
         for t in tables {
             eng.create(t)?;
         }
@@ -454,6 +475,7 @@ impl Engine {
             st.log.clear();
         }
         self.statements += 1;
+        self.ops.store(0, std::sync::atomic::Ordering::Relaxed);
         let mut stmt = self.conn.prepare(sql).map_err(|e| format!("prepare: {}", e))?;
         let columns: Vec<String> = stmt.column_names().iter().map(|s| s.to_string()).collect();
         let n = columns.len();
@@ -475,7 +497,12 @@ impl Engine {
                     rows_out.push(r);
                 }
                 Ok(None) => break,
-                Err(e) => return Err(format!("step: {}", e)),
+                Err(e) => {
+                    if self.ops.load(std::sync::atomic::Ordering::Relaxed) > vm_ops_budget() / 100_000 {
+                        return Err(format!("engine_budget: statement exceeded {} virtual-machine operations", vm_ops_budget()));
+                    }
+                    return Err(format!("step: {}", e));
+                }
             }
         }
         let log = self.state.lock().unwrap().log.clone();
